@@ -64,7 +64,7 @@ theorem getMatch_renders (f : Nat → Nat) {chk : Constraint → Bytes → Bool}
         exact ⟨by rw [← hd]; exact isPrefixOf_take det _, ih⟩
     · -- parameter
       obtain ⟨vs', hv, _, _, hrec⟩ := getMatch_param_step h hp
-      have hle := findParamLen_le det seg
+      have hle := paramLen_le det seg rest
       have ih := getMatch_renders f rest _ _ vs' hm.tail (hal.drop _ hle) hrec
       subst hv
       unfold renders
@@ -101,12 +101,12 @@ theorem getMatch_constraints {chk : Constraint → Bytes → Bool} {pc : Bool} :
       split
       · exact ih
       · rename_i hne
-        have hall : seg.constraints.all (chk · (path.take (findParamLen det seg))) = true := by
+        have hall : seg.constraints.all (chk · (path.take (paramLen det seg rest))) = true := by
           apply hcs
           intro ⟨ho, h0⟩
           apply hne
           simp [ho, h0]
-        have hfind : seg.constraints.find? (fun c => !chk c (path.take (findParamLen det seg))) = none := by
+        have hfind : seg.constraints.find? (fun c => !chk c (path.take (paramLen det seg rest))) = none := by
           rw [List.find?_eq_none]
           intro c hc
           rw [List.all_eq_true] at hall
@@ -130,7 +130,7 @@ theorem getMatch_required (f : Nat → Nat) {chk : Constraint → Bytes → Bool
       · exact getMatch_required f rest _ _ vs (hal.drop _ hle) hrec
     · simp only [if_true]
       obtain ⟨vs', hv, hreq, _, hrec⟩ := getMatch_param_step h hp
-      have hle := findParamLen_le det seg
+      have hle := paramLen_le det seg rest
       have ih := getMatch_required f rest _ _ vs' (hal.drop _ hle) hrec
       subst hv
       unfold requiredNonEmpty
@@ -138,9 +138,9 @@ theorem getMatch_required (f : Nat → Nat) {chk : Constraint → Bytes → Bool
       rcases hreq with ho | hne
       · left; exact ho
       · right
-        have hl : (path.take (findParamLen det seg)).length = findParamLen det seg := by
+        have hl : (path.take (paramLen det seg rest)).length = paramLen det seg rest := by
           rw [List.length_take]; have := hal.length_le; omega
-        cases hv : path.take (findParamLen det seg) with
+        cases hv : path.take (paramLen det seg rest) with
         | nil => rw [hv] at hl; simp at hl; omega
         | cons _ _ => rfl
 
@@ -237,6 +237,63 @@ theorem findParamLen_noSlash {chk : Constraint → Bytes → Bool} {pc : Bool} {
           · rw [h, indexOf_nil] at hk; cases hk
           · rw [h] at h1; simp at h1
 
+/-- The same for `findParamLen(s, segment, following)`: when the full constant replaces the compare
+    part the path holds it, so the "delimiter not found" fall-through does not arise at all. -/
+theorem paramLen_noSlash {chk : Constraint → Bytes → Bool} {pc : Bool} {seg : Seg} {rest : List Seg}
+    {det path' : Bytes} {vs' : List Bytes}
+    (hm : MetaOK (seg :: rest)) (hp : seg.isParam = true) (hg : seg.isGreedy = false)
+    (hrec : getMatch chk rest (det.drop (paramLen det seg rest)) path' pc = some vs') :
+    (det.take (paramLen det seg rest)).contains SLASH = false := by
+  unfold paramLen at hrec ⊢
+  split at hrec
+  · exact findParamLen_noSlash hm hp hg hrec
+  · rename_i seg' hfc
+    simp only [hg, Bool.false_eq_true, if_false] at hrec ⊢
+    -- replaced: `seg'.comparePart` occurs in `det`
+    unfold fullConst at hfc
+    split at hfc
+    · cases hfc
+    · rename_i hguard
+      split at hfc
+      · rename_i n tl
+        split at hfc
+        · rename_i hc
+          cases hfc
+          simp only [Bool.and_eq_true, decide_eq_true_eq] at hc
+          simp only [Bool.or_eq_true, Bool.and_eq_true, bne_iff_ne, ne_eq, decide_eq_true_eq, not_or, not_and] at hguard
+          have hl : seg.isLast = false := by
+            cases h : seg.isLast
+            · rfl
+            · exact absurd h hguard.1
+          obtain ⟨k, hk⟩ := Option.isSome_iff_exists.mp hc.2
+          unfold findParamLen
+          simp only [hl, Bool.false_eq_true, if_false, hg, Bool.false_and, Bool.not_false, Bool.true_and]
+          have hlen : (seg.length != 0 && decide (det.length ≥ seg.length)) = false := by
+            cases h : (seg.length != 0 && decide (det.length ≥ seg.length))
+            · rfl
+            · simp only [Bool.and_eq_true, bne_iff_ne, ne_eq, decide_eq_true_eq] at h
+              exact absurd h.2 (by have := hguard.2 h.1; omega)
+          simp only [hlen, Bool.false_eq_true, if_false]
+          split
+          · rename_i h1
+            simp only [beq_iff_eq] at h1
+            obtain ⟨c0, hc0⟩ : ∃ c0, n.const = [c0] := by
+              match hcc : n.const, h1 with
+              | [x], _ => exact ⟨x, rfl⟩
+            rw [hc0] at hk ⊢
+            rw [indexOf_singleton] at hk
+            simp only [List.headD_cons, hk]
+            split
+            · simp
+            · rename_i hcs; simpa using hcs
+          · rw [hk]
+            simp only
+            split
+            · simp
+            · rename_i hcs; simpa using hcs
+        · cases hfc
+      · cases hfc
+
 theorem contains_map_slash {f : Nat → Nat} (hf : ∀ c, f c = SLASH ↔ c = SLASH) (l : Bytes) :
     (l.map f).contains SLASH = l.contains SLASH := by
   induction l with
@@ -270,14 +327,14 @@ theorem getMatch_namedNoSlash (f : Nat → Nat) (hf : ∀ c, f c = SLASH ↔ c =
       · exact getMatch_namedNoSlash f hf rest _ _ vs hm.tail (hal.drop _ hle) hrec
     · simp only [if_true]
       obtain ⟨vs', hv, _, _, hrec⟩ := getMatch_param_step h hp
-      have hle := findParamLen_le det seg
+      have hle := paramLen_le det seg rest
       have ih := getMatch_namedNoSlash f hf rest _ _ vs' hm.tail (hal.drop _ hle) hrec
       subst hv
       unfold namedNoSlash
       simp only [Bool.and_eq_true, Bool.or_eq_true, Bool.not_eq_true', ih, and_true]
       cases hg : seg.isGreedy
       · right
-        have := findParamLen_noSlash hm hp hg hrec
+        have := paramLen_noSlash hm hp hg hrec
         rw [← hal.take _ hle, contains_map_slash hf] at this
         exact this
       · left; rfl
